@@ -32,6 +32,9 @@ def geometry(rng, kind=None, want=None):
         ("f32_oor", dict(fat32=True, lba=1, spc=4, nclusters=65530, nfats=2, info="oor")),
         ("f32_unkcount", dict(fat32=True, lba=1, spc=1, nclusters=65526, nfats=2, info="unknowncount")),
         ("f32_exact", dict(fat32=True, lba=1, spc=1, nclusters=65534, nfats=2, info="ok")),   # (N+2)*4 = 512*512: last FAT sector exactly full
+        ("f16_root500", dict(fat32=False, lba=3, spc=1, nclusters=4200, root_entries=500, nfats=2)),   # root region = 31.25 blocks: rounds up to 32
+        ("f32_staleused", dict(fat32=True, lba=1, spc=1, nclusters=65525, nfats=2, info="staleused")),
+        ("f32_stalelow", dict(fat32=True, lba=1, spc=2, nclusters=65530, nfats=1, info="stalelow")),
     ]
     if kind == "fat16":
         table = [t for t in table if not t[1]["fat32"]]
@@ -53,6 +56,8 @@ def build_image(rng, geo, populate=1, free_left=None, dirty_free=0, second_parti
     if kw.get("fat32") and rng.chance(1, 2):
         kw["high_nibble"] = rng.choice([5, 15, 8])
     v = fatimg.Vol(dirty_free=dirty_free, **kw)
+    if not kw["fat32"] and rng.chance(1, 2):
+        v.ea_word = rng.choice([3, 0x8000, 0xFFFF, 1])
     meta = dict(geo=name, files={}, dirs={"": v.root}, fat32=kw["fat32"], spc=kw.get("spc", 1), N=v.N, vol=v)
     if populate:
         n = 1 + rng.below(4)
@@ -380,6 +385,48 @@ class Gen:
             self.emit("iowrite %s %d %d" % (f, n, self.seed()))
             if n:
                 st["pos"] += n; st["size"] = max(st["size"], st["pos"]); self.tree_files[st["path"]] = st["size"]
+    # -- the extended alphabet (FsExt.xop): iterate_dir_lfn, wrapper drops, change_dir, panicking queries
+    def g_iterlfn(self):
+        d = self.any_dir()
+        if d is None:
+            return self.g_openroot()
+        self.emit("iterlfn %s %d" % (d, self.rng.choice([0, 1, 11, 12, 13, 20, 40, 64, 255, 780])))
+    def g_dropfile(self):
+        f = self.any_file()
+        if f is None:
+            return
+        self.emit("dropfile %s" % f)
+        del self.files[f]
+        self.closed.append(f)
+    def g_dropdir(self):
+        if not self.dirs:
+            return
+        d = self.rng.choice(list(self.dirs))
+        self.emit("dropdir %s" % d)
+        del self.dirs[d]
+        self.closed.append(d)
+    def g_chdir(self):
+        d = self.any_dir()
+        if d is None:
+            return self.g_openroot()
+        p = self.dirs[d][0]
+        cands = [x for x in self.tree_dirs if x and (x.rsplit("/", 1)[0] or "/") == p]
+        nm = os.path.basename(self.rng.choice(cands)) if cands and self.rng.chance(3, 5) else self.rng.choice(DIR_NAMES + [".", "..", "..", "A.TXT"])
+        # Directory::change_dir: on success the wrapper (= the slot) holds the new handle, the old one is closed
+        self.emit("chdir %s %s" % (d, hx(nm)), d)
+        if len(self.dirs) < self.lim[1]:
+            if nm == ".":
+                pass
+            elif nm == "..":
+                if p != "/":
+                    self.dirs[d] = ((p.rsplit("/", 1)[0] or "/"), self.dirs[d][1])
+            elif self.path_join(p, nm) in self.tree_dirs:
+                self.dirs[d] = (self.path_join(p, nm), self.dirs[d][1])
+    def g_wquery(self):
+        f = self.any_file()
+        if f is None:
+            return
+        self.emit("%s %s" % (self.rng.choice(["wlen", "woff", "weof"]), f))
     # -- malformed stream
     def g_bad(self):
         r = self.rng
@@ -454,7 +501,8 @@ class Gen:
                     self.closed.append(v)
 
 DEFAULT_WEIGHTS = dict(openvol=1, openroot=3, opendir=3, closedir=2, closevol=1, open=8, write=10, read=8, seek=6, query=3, flush=3,
-                       close=4, delete=3, mkdir=2, find=2, iter=3, label=1, hasopen=1, remount=1, io=2, bad=4)
+                       close=4, delete=3, mkdir=2, find=2, iter=3, label=1, hasopen=1, remount=1, io=2, bad=4,
+                       iterlfn=0, dropfile=0, dropdir=0, chdir=0, wquery=0)
 
 def profile(**over):
     w = dict(DEFAULT_WEIGHTS)
@@ -476,8 +524,10 @@ def make_script(rng, meta, limits, prof, nops, id_offset=5000, faults=(), prelud
         g.files = {}
     return g.ops
 
-def write_script(path, img_path, limits, ops, id_offset=5000, faults=()):
+def write_script(path, img_path, limits, ops, id_offset=5000, faults=(), raii=False):
     with open(path, "w") as fh:
+        if raii:
+            fh.write("# RAII\n")      # fsrun issues every call through the Volume / Directory / File wrappers
         fh.write("CFG %d %d %d %d\n" % (limits[0], limits[1], limits[2], id_offset))
         if faults:
             fh.write("FAULTS %s\n" % " ".join(str(x) for x in faults))
